@@ -168,6 +168,31 @@ impl Prop for C16 {
     for (name, lit, shape) in [("row", "[1 2 3]", (1usize, 3usize)), ("col", "[1; 2; 3]", (3, 1)), ("mat", "[1 2 3; 4 5 6]", (2, 3))] {
       out.push(Case { id: format!("broadcast;{}", name), cell: format!("broadcast;{}", name), input: json!({"mode": "broadcast", "def": "sq-plus(x<f64>) => <f64>\n  | * => x * x + 1.", "call": format!("sq-plus({})", lit), "lit": lit, "rows": shape.0, "cols": shape.1}) });
     }
+    // the same for non-f64 element kinds (increment): shape and kind kept
+    for k in ["u64", "u8", "i64", "f32"] { for (name, els, shape) in [("row", vec![1, 2, 3], (1usize, 3usize)), ("col", vec![1, 2, 3], (3, 1)), ("mat", vec![1, 2, 3, 4, 5, 6], (2, 3)), ("tall", vec![1, 2, 3, 4, 5, 6], (3, 2))] {
+      let sp = |n: i64| if k == "u64" || k == "u8" { format!("{}{}", n, k) } else { format!("{}<{}>", n, k) };
+      let lit = { let c = shape.1; let rows: Vec<String> = els.chunks(c).map(|r| r.iter().map(|n| sp(*n)).collect::<Vec<_>>().join(" ")).collect(); format!("[{}]", rows.join("; ")) };
+      let want = { let c = shape.1; let rows: Vec<String> = els.chunks(c).map(|r| r.iter().map(|n| sp(*n + 1)).collect::<Vec<_>>().join(" ")).collect(); format!("[{}]", rows.join("; ")) };
+      out.push(Case { id: format!("broadcast-typed;kind={};{}", k, name), cell: format!("broadcast-typed;{}", name), input: json!({"mode": "broadcast-typed", "def": format!("inc(x<{k}>) => <{k}>\n  | * => x + {one}.", k = k, one = sp(1)), "call": format!("inc({})", lit), "want": want}) });
+    } }
+    // nested matches: the inner match sees the bindings of the outer arm (and not a global of the same name)
+    for as_fn in [false, true] {
+      let mut calls = Vec::new();
+      for a in 0..3u64 { for b in 0..3u64 {
+        let expect = if a == 0 { b } else { a + 10 * b };
+        let src = if as_fn { format!("pick({}u64, {}u64)", a, b) } else { format!("r := ({}u64, {}u64)?\n  | (a, b) => a?\n    | 0u64 => b\n    | * => a + 10u64 * b.\n  | * => 999u64.", a, b) };
+        calls.push(json!({"src": src, "expect": expect, "args": [a, b], "prelude": "b := 1000u64"}));
+      } }
+      let def = if as_fn { json!("pick(x<u64>, y<u64>) => <u64>\n  | (a, b) => a?\n    | 0u64 => b\n    | * => a + 10u64 * b..") } else { J::Null };
+      out.push(Case { id: format!("nested-match;as_fn={}", as_fn), cell: "nested-match".into(), input: json!({"mode": "arms", "def": def, "calls": calls, "as_match": !as_fn, "has_wild": true}) });
+    }
+    // tail recursion whose pattern variables are NOT named like the parameters (renamed, swapped)
+    let st: Vec<J> = [0u64, 1, 2, 10, 100, 2000].iter().map(|n| json!({"src": format!("sum-to({}<u64>, 0<u64>)", n), "expect": n * (n + 1) / 2, "args": [n]})).collect();
+    out.push(Case { id: "recursion;tail-renamed-sum".into(), cell: "recursion;tail-renamed".into(), input: json!({"mode": "arms", "def": "sum-to(n<u64>, acc<u64>) => <u64>\n  ├ (0<u64>, total) => total\n  └ (k, total) => sum-to(k - 1<u64>, total + k).", "calls": st, "as_match": false, "has_wild": true}) });
+    let fa: Vec<J> = (0..=15u64).map(|n| { let (mut a, mut b) = (0u64, 1u64); for _ in 0..n { let t = a + b; a = b; b = t; } json!({"src": format!("fib-acc({}<u64>, 0<u64>, 1<u64>)", n), "expect": a, "args": [n]}) }).collect();
+    out.push(Case { id: "recursion;tail-swapped-fib".into(), cell: "recursion;tail-renamed".into(), input: json!({"mode": "arms", "def": "fib-acc(n<u64>, a<u64>, b<u64>) => <u64>\n  ├ (0<u64>, x, *) => x\n  └ (n, b, a) => fib-acc(n - 1<u64>, a, a + b).", "calls": fa, "as_match": false, "has_wild": true}) });
+    let gr: Vec<J> = (0..=9u64).flat_map(|x| (0..=9u64).map(move |y| json!({"src": format!("gcd2({}<u64>, {}<u64>)", x, y), "expect": gcd(x, y), "args": [x, y]}))).collect();
+    out.push(Case { id: "recursion;tail-renamed-gcd".into(), cell: "recursion;tail-renamed".into(), input: json!({"mode": "arms", "def": "gcd2(a<u64>, b<u64>) => <u64>\n  ├ (x, 0<u64>) => x\n  └ (x, y) => gcd2(y, x % y).", "calls": gr, "as_match": false, "has_wild": true}) });
     // stated error classes
     for (name, def, src) in [
       ("arity-few", "two(x<u64>, y<u64>) => <u64>\n  | (x, y) => x + y.", "two(1u64)"),
@@ -190,6 +215,7 @@ impl Prop for C16 {
           let src = call["src"].as_str().unwrap();
           let mut fresh;
           let sess: &mut Sess = if call.get("fresh").is_some() { fresh = Sess::new(); if let Some(p) = call["prelude"].as_str() { let _ = fresh.eval(p); } &mut fresh } else if case.input["as_match"].as_bool().unwrap_or(false) { fresh = Sess::new(); &mut fresh } else { &mut s };
+          if call.get("fresh").is_none() { if let Some(p) = call["prelude"].as_str() { let _ = sess.eval(p); } }
           let res = sess.eval(src);
           let ctx = || format!("{}\n{}", case.input["def"].as_str().unwrap_or(""), src);
           match (&res, call["expect"].as_u64()) {
@@ -210,6 +236,19 @@ impl Prop for C16 {
         match (&res, &m) {
           (Ev::Ok(v), Ev::Ok(src)) => { let want: Vec<CVal> = src.elems().iter().map(|e| match e { CVal::S(_, Sc::F64(b)) => { let x = f64::from_bits(*b); sc_f64(x * x + 1.0) } o => o.clone() }).collect(); if v.shape() != src.shape() || v.elems() != want { Outcome::violated("broadcast-wrong", format!("{} -> {} expected elementwise map of {}", case.input["call"], v.show(), src.show())) } else { Outcome::held() } }
           (other, _) => Outcome::violated("error-instead-of-value", format!("{} -> {}", case.input["call"], other.show())),
+        }
+      }
+      "broadcast-typed" => {
+        let mut s = Sess::new();
+        let _ = s.eval(case.input["def"].as_str().unwrap());
+        let res = s.eval(case.input["call"].as_str().unwrap());
+        let want = s.eval(case.input["want"].as_str().unwrap());
+        match (&res, &want) {
+          // shape and elements are demanded; whether the result is a typed matrix or a matrix of values is not stated
+          (Ev::Ok(v), Ev::Ok(w)) => if v.shape() == w.shape() && v.elems() == w.elems() { Outcome::held() } else { Outcome::violated(if v.shape() != w.shape() { "broadcast-shape-differs" } else { "broadcast-wrong" }, format!("{}\n{} -> {} expected {}", case.input["def"], case.input["call"], v.show(), w.show())) },
+          (Ev::Panic(p), _) => Outcome::violated("panic-escaped", p.clone()),
+          (_, Ev::Ok(_)) => Outcome::trivial().tag("broadcast-unsupported-for-kind"),
+          _ => Outcome::inconclusive("harness-literal", case.input["want"].to_string()),
         }
       }
       "error" => {
